@@ -13,33 +13,12 @@
 (*    counts as data) plus the extremes.  Printed as JSON lines and        *)
 (*    replayed on the real code by the C07 driver.                         *)
 (***************************************************************************)
-EXTENDS MSM, TLC, Json, FiniteSets
+EXTENDS MSMGuards, TLC, Json, FiniteSets
 
 CONSTANTS NSats, NSigs
 
 VARIABLES fam, nSat, nSig
 vars == <<fam, nSat, nSig>>
-
-TypeOfFam(f) == IF f = "msm7" THEN 1077 ELSE 1074
-FrameBits(L) == 8 * (L + 6)
-Lens == 1..1023
-
-\* ---- guards as implemented (after the fixes) --------------------------------
-TsAccept(L) == 8 * L >= 54                                 \* handler.GetMessage
-TsMaxRead == P0 + 54
-HdrAccept(L, ns, ng) == /\ 8 * L >= MinHdrBits             \* header.GetMSMHeader
-                        /\ ns * ng <= 64
-                        /\ FrameBits(L) >= 48 + MinHdrBits + ns * ng
-HdrMaxRead(ns, ng) == P0 + HdrBits(ns, ng)
-SatAccept(t, L, ns, ng) ==                                 \* satellite.GetSatelliteCells
-    IF IsMSM7(t) THEN FrameBits(L) - SatDataPos(ns, ng) >= ns * SatCellBits(t)
-                 ELSE FrameBits(L) - SatDataPos(ns, ng) - 24 >= ns * SatCellBits(t)
-SatMaxRead(t, ns, ng) == SigDataPos(t, ns, ng)
-\* signal.GetSignalCells reads at most the cells that fit in the bits left in the frame
-CellsThatFit(t, L, ns, ng) == (FrameBits(L) - SigDataPos(t, ns, ng)) \div SigCellBits(t)
-CellsRead(t, L, ns, ng, nc) == IF nc < CellsThatFit(t, L, ns, ng) THEN nc ELSE CellsThatFit(t, L, ns, ng)
-Accept1005(L) == 8 * L >= 152
-Accept1006(L) == 8 * L >= 168
 
 \* every read of an accepting decoder lies inside the frame
 InBounds ==
